@@ -58,6 +58,9 @@ class FrontEnd:
 
     @inject(WebApp)
     def render_action(self, script_control, message, web_app=injected):
+        if script_control is None:
+            # The manifest has no button for this action.
+            return self.index()
         return render_template(
             'action.html',
             agent_class=self.get_agent_class(),
